@@ -31,7 +31,10 @@ ASSUMPTIONS = [
     "held), no destruction of a socket inside its own receive handler, at most rxBufCount receive buffers held",
 ]
 TRUSTED = ["ASan/UBSan/_GLIBCXX_ASSERTIONS/_GLIBCXX_SANITIZE_VECTOR as the detector of undefined behaviour in the implementation",
-           "Linux loopback TCP/UDP semantics for the raw peers"]
+           "Linux loopback TCP/UDP semantics for the raw peers",
+           "the transcript parser of Drive/C17.lean (lines -> typed observations of Spec/C17.lean); the predicate itself is "
+           "Spec/C17.lean: specStep/specEnd, proved to accept every trace of the model (spec_holds_on_model), so a spec verdict "
+           "is a difference between implementation and model"]
 ALL_TAGS = ["send", "send.unregistered", "send.nodriver", "dsock", "dsock.pending", "ddriver.empty", "ddriver.busy",
             "step", "step.empty", "cancel", "cancel.finished", "shift", "shift.finished", "disc", "disc.selfdestroy",
             "fut.value", "fut.broken", "fut.exn", "skipped"]
@@ -147,8 +150,9 @@ def gen(rng, tier):
 
 
 TECHNIQUE = ("Lean 4 theorems (invariant over all legal histories of a lifecycle state machine with explicit UB outcomes; proved "
-             "negation for the pre-fix variant) + model/implementation correspondence on random and bounded-exhaustive histories "
-             "under sanitizers")
+             "negation for the pre-fix variant; the run-time oracle Spec/C17.lean is a typed executable predicate proved to accept "
+             "every trace of the model for every history: spec_holds_on_model, by a simulation relation) + model/implementation "
+             "correspondence on random and bounded-exhaustive histories under sanitizers")
 LEVEL_TEXT = ("Machine-checked theorems about a lifecycle state machine of drivers (weakly referenced), async sockets with their "
               "registration in the two parallel vectors, peers, send queues with futures, pools and ToDos, in which every place where "
               "the C++ would be undefined is an explicit outcome: no legal history of any length reaches undefined behaviour; after a "
@@ -156,7 +160,14 @@ LEVEL_TEXT = ("Machine-checked theorems about a lifecycle state machine of drive
               "pre-fix AsyncWantSend variant provably reaches UB on [attach; peer close; step; step; send]. Tied to /repo on every run by "
               "driving the real API with generated legal histories (each in its own process; asserts+ASan+UBSan+_GLIBCXX_ASSERTIONS+"
               "vector annotations, NDEBUG+ASan, and plain NDEBUG builds), comparing every handler invocation and future state with the "
-              "model and evaluating the property on the observations (no crash, no handler after destruction, no dangling future).")
+              "model and evaluating the property on the observations (no crash, no handler after destruction, no dangling future). "
+              "That run-time predicate is its own module (Spec/C17.lean: typed observations, total functions specStep/specRun/specEnd, "
+              "no model state) and a theorem of the model: spec_holds_on_model - for every history of any length, legal or not "
+              "(operations that break a usage rule are refused as the harness refuses them), and every kernel answer to writes "
+              "towards a closed peer, the observations the model produces (including the harness' final destruction of everything "
+              "that is left, proved to be a legal continuation of every reachable state that leaves no socket alive and no future "
+              "pending) are accepted by every clause; hence the oracle is never stricter than the model and a spec verdict is a "
+              "genuine difference between implementation and model.")
 LEVEL_NOTE = ("Trusted: Lean kernel; axioms propext/Quot.sound/Classical.choice; the hand-written model (tied to the code by "
               "correspondence on the generated histories only); sanitizers as the UB detector on the implementation side; Linux loopback "
               "semantics. Lifetime of std::function objects destroyed while executing is below the model. Cross-thread histories are C04.")
